@@ -136,8 +136,13 @@ class _ScopeBase:
                 result[name] = nonlocal_dict[name]
             elif name in global_dict:
                 result[name] = global_dict[name]
-            elif isinstance(builtins, dict) and name in builtins:
-                result[name] = builtins[name]
+            elif isinstance(builtins, dict):
+                # __builtins__ is a dictionary in imported modules,
+                # hasattr would find the methods of the dictionary itself
+                if name in builtins:
+                    result[name] = builtins[name]
+                else:
+                    assert name == "__class__", f"invalid name '{name}'"
             elif hasattr(builtins, name):
                 result[name] = getattr(builtins, name)
             else:
